@@ -12,7 +12,7 @@ import numpy as _np
 from pyvc.runner import group, REPO
 from pyvc import symnp as snp, terms as tm
 from pyvc.sym import Sym, realconst
-from .common import And, Or, Not, Implies, Iff, to_float_array
+from .common import And, Or, Not, Implies, Iff, to_float_array, sym_abs
 
 LEVEL = 'other'
 EXPLANATION = ("Integrator and gradient clauses are proved: the real euler/rungekutta/central_difference sources are executed on fully "
@@ -84,14 +84,15 @@ def _replay_cdiff(stem, vals):
     msgs = []
     # quadratic in 3 variables with simple coefficients; exact up to rounding
     rng = np.random.RandomState(0)
-    Q = rng.uniform(-1, 1, (3, 3))
-    b = rng.uniform(-1, 1, 3)
-    f = lambda x: np.einsum('...i,ij,...j->...', x, Q, x) + x.dot(b)
-    for x in (np.array([0.3, -0.2, 0.7]), rng.uniform(-1, 1, (4, 3))):
-        got = am.mep.gradient.central_difference(f, x, shift=1e-3)
-        want = x.dot(Q + Q.T) + b
-        if not np.allclose(got, want, atol=1e-8):
-            msgs.append('central_difference on a quadratic at %r: %r, analytic gradient %r' % (x.tolist(), got.tolist(), want.tolist()))
+    for n in (1, 2, 3):
+        Q = rng.uniform(-1, 1, (n, n))
+        b = rng.uniform(-1, 1, n)
+        f = lambda x: np.einsum('...i,ij,...j->...', x, Q, x) + x.dot(b)
+        for x in (rng.uniform(-1, 1, n), rng.uniform(-1, 1, (4, n))):
+            got = am.mep.gradient.central_difference(f, x, shift=1e-3)
+            want = x.dot(Q + Q.T) + b
+            if not np.allclose(got, want, atol=1e-8):
+                msgs.append('central_difference on a quadratic in %d variable(s) at %r: %r, analytic gradient %r' % (n, x.tolist(), got.tolist(), want.tolist()))
     return (len(msgs) > 0, '; '.join(msgs) if msgs else 'central_difference agrees with the analytic gradient of a quadratic in floats')
 
 
@@ -330,6 +331,90 @@ def ism_rates(E, L):
 
 
 # ----------------------------------------------------------------------------
+# control structure of ISMPath.relax over the contract of step (stubbed): both phases run, each stops only on its own convergence
+
+def _replay_relax(stem, vals):
+    from pyvc.native import atomman
+    import numpy as np
+    am = atomman()
+    s0 = 0.3
+    en = lambda p: (np.asarray(p)[..., 0] ** 4 - 4 * s0 / 3 * np.asarray(p)[..., 0] ** 3 - 2 * np.asarray(p)[..., 0] ** 2 + 4 * s0 * np.asarray(p)[..., 0]) + 2.0 * np.asarray(p)[..., 1] ** 2
+    t = np.linspace(0, 1, 12)
+    coord = np.array([-0.9, 0.1]) + np.outer(t, np.array([1.8, -0.2]))
+    path = am.mep.create_path(coord, en, gradientkwargs={'shift': 1e-5})
+    calls = []
+    orig = type(path).step
+
+    def spy(self, timestep=None, climbindex=None):
+        calls.append(climbindex is not None)
+        return orig(self, timestep=timestep, climbindex=climbindex)
+    type(path).step = spy
+    try:
+        path.relax(relaxsteps=3000, climbsteps=5, verbose=False)
+    finally:
+        type(path).step = orig
+    nclimb = sum(calls)
+    nrelax = len(calls) - nclimb
+    if nclimb == 0:
+        return True, 'relax(relaxsteps=3000, climbsteps=5) on an asymmetric double well: %d relaxation steps (converged) but NO climbing step was taken' % nrelax
+    return False, 'relax took %d relaxation and %d climbing steps' % (nrelax, nclimb)
+
+
+@group('ISMPath.relax.control', files=[ISM], functions=['ISMPath.relax'],
+       clause='relax performs relaxation steps until the displacement rate drops below the tolerance or the budget is used, then ALWAYS enters the climbing phase '
+              '(at least one climbing step when climbsteps >= 1, on the interior energy maxima), which stops only on its own convergence; returns the last path',
+       replay=_replay_relax)
+def relax_control(E, L):
+    ISMPath = L.load(ISM).ISMPath
+    calls = []
+    made = []
+    en = lambda c: _np.array([0.0, 1.0, 0.5])
+
+    class P(ISMPath):
+        def step(self, timestep=None, climbindex=None):
+            k = len(calls) + 1
+            calls.append(('climb' if climbindex is not None else 'relax', timestep, None if climbindex is None else [int(i) for i in climbindex], self))
+            new = P(E.reals('c%d' % k, (3, 1)), en, gradientfxn=lambda f, c, **kw: 0, integratorfxn=lambda r, c, t, **kw: c)
+            made.append(new)
+            return new
+    p0 = P(E.reals('c0', (3, 1)), en, gradientfxn=lambda f, c, **kw: 0, integratorfxn=lambda r, c, t, **kw: c)
+    tol = E.real('tol')
+    E.assume(tol > 0)
+    dt = 0.5
+    E.side_enabled = False
+    out = p0.relax(relaxsteps=2, climbsteps=2, timestep=dt, tolerance=tol, verbose=False)
+    kinds = [c[0] for c in calls]
+    nr = kinds.count('relax')
+    nc = kinds.count('climb')
+    E.prove('relax.phases_in_order', kinds == ['relax'] * nr + ['climb'] * nc)
+    E.prove('relax.at_least_one_relax_step', nr >= 1)
+    E.prove('relax.climbing_phase_always_entered', nc >= 1)
+    E.prove('relax.timestep_forwarded', all(c[1] == dt for c in calls))
+    E.prove('relax.climbs_on_interior_maximum', all(c[2] == [1] for c in calls if c[0] == 'climb'))
+    E.prove('relax.returns_last_path', out is made[-1])
+    chain = [p0] + made
+    E.prove('relax.each_step_continues_from_the_previous_result', all(calls[i][3] is chain[i] for i in range(len(calls))))
+
+    def rate(i):
+        a, b = chain[i].coord, chain[i + 1].coord
+        ds = [sym_abs(b[j, 0] - a[j, 0]) for j in range(3)]
+        m = ds[0]
+        for d in ds[1:]:
+            m = Sym(tm.max_(m.t, d.t))
+        return m / dt
+    # a phase that used fewer steps than its budget stopped because ITS OWN last step converged; one that used the budget did not converge before
+    if nr == 1:
+        E.prove('relax.relaxation_stops_only_when_converged', rate(0) < tol)
+    else:
+        E.prove('relax.relaxation_continues_until_converged', Not(rate(0) < tol))
+    if nc == 1:
+        E.prove('relax.climbing_stops_only_when_converged', rate(nr) < tol)
+    elif nc == 2:
+        E.prove('relax.climbing_continues_until_converged', Not(rate(nr) < tol))
+    E.canary('relax.control.canary', tol == 1)
+
+
+# ----------------------------------------------------------------------------
 # option handling (finite, exhaustive)
 
 def _replay_options(stem, vals):
@@ -419,36 +504,41 @@ def relax_family(tier, seed):
     import hashlib
     import os
     am = atomman()
-    ks = [1.0, 2.0, 4.0]
-    cs = [0.0, 0.3, -0.5, 0.8]
-    images = [11, 15] if tier == 'quick' else [9, 11, 15, 21]
+    ks = [2.0, 4.0]
+    cs = [0.0, 0.3, -0.5]
+    ss = [0.0, 0.3, -0.25]
+    images = [11, 12] if tier == 'quick' else [9, 11, 12, 16, 21]
     bends = [0.0, 0.4] if tier == 'quick' else [0.0, 0.4, -0.6]
     integs = ['rk'] if tier == 'quick' else ['rk', 'euler']
     fails, samples = [], []
     evals = nontriv = 0
-    for k, c, n, bend, integ in itertools.product(ks, cs, images, bends, integs):
-        # surface: minima at (-1,0) and (1,0), saddle at (0,-c) with energy 1 (valley y = c x^2 - c)
-        def en(p, k=k, c=c):
+    for k, c, s0, n, bend, integ in itertools.product(ks, cs, ss, images, bends, integs):
+        # surface: E = h(x) + k (y - c x^2 + c)^2 with h'(x) = 4 (x^2-1)(x-s0): minima at (-1,0) and (1,0), saddle at (s0, c s0^2 - c)
+        hx = lambda x, s0=s0: x ** 4 - 4 * s0 / 3 * x ** 3 - 2 * x ** 2 + 4 * s0 * x
+
+        def en(p, k=k, c=c, hx=hx):
             p = np.asarray(p)
             x, y = p[..., 0], p[..., 1]
-            return (x ** 2 - 1) ** 2 + k * (y - c * x ** 2 + c) ** 2
+            return hx(x) + k * (y - c * x ** 2 + c) ** 2
 
-        def grad(p, k=k, c=c):
+        def grad(p, k=k, c=c, s0=s0):
             p = np.asarray(p)
             x, y = p[..., 0], p[..., 1]
             w = y - c * x ** 2 + c
-            return np.stack([4 * x * (x ** 2 - 1) - 4 * k * c * x * w, 2 * k * w], axis=-1)
+            return np.stack([4 * (x ** 2 - 1) * (x - s0) - 4 * k * c * x * w, 2 * k * w], axis=-1)
+        saddle = np.array([s0, c * s0 ** 2 - c])
+        barrier_e = hx(s0)
         t = np.linspace(0, 1, n)
         start = np.array([-0.8, 0.15])
         end = np.array([0.9, -0.1])
         coord = start + np.outer(t, end - start)
         coord[:, 1] += bend * np.sin(np.pi * t)
         evals += 1
-        key = 'k=%g,c=%g,images=%d,bend=%g,integrator=%s' % (k, c, n, bend, integ)
+        key = 'k=%g,c=%g,s=%g,images=%d,bend=%g,integrator=%s' % (k, c, s0, n, bend, integ)
         try:
             path = am.mep.create_path(coord, en, gradientkwargs={'shift': 1e-5}, integratorfxn=integ)
             e0 = path.energy()
-            if abs(e0.max() - 1.0) > 1e-3 or np.linalg.norm(path.coord[0] - [-1, 0]) > 1e-3:
+            if abs(e0.max() - barrier_e) > 1e-3 or np.linalg.norm(path.coord[0] - [-1, 0]) > 1e-3:
                 nontriv += 1
             path = path.relax(relaxsteps=4000, climbsteps=4000, verbose=False)
             cfin = path.coord
@@ -459,10 +549,10 @@ def relax_family(tier, seed):
                 msgs.append('first end %r not at the minimum (-1,0)' % (cfin[0].tolist(),))
             if np.linalg.norm(cfin[-1] - [1, 0]) > 2e-2:
                 msgs.append('last end %r not at the minimum (1,0)' % (cfin[-1].tolist(),))
-            if np.linalg.norm(cfin[imax] - [0, -c]) > 2e-2:
-                msgs.append('highest image %r not at the saddle (0,%g)' % (cfin[imax].tolist(), -c))
-            if abs(efin[imax] - 1.0) > 1e-3:
-                msgs.append('barrier %r differs from the true barrier 1' % (efin[imax],))
+            if np.linalg.norm(cfin[imax] - saddle) > 1e-2:
+                msgs.append('highest image %r not at the saddle %r' % (cfin[imax].tolist(), saddle.tolist()))
+            if abs(efin[imax] - barrier_e) > 5e-4:
+                msgs.append('energy of the highest image %r differs from the saddle energy %r' % (efin[imax], barrier_e))
             if np.linalg.norm(grad(cfin[imax])) > 5e-2:
                 msgs.append('gradient at the highest image %r does not vanish' % (grad(cfin[imax]).tolist(),))
             if len(samples) < 3:
@@ -475,7 +565,7 @@ def relax_family(tier, seed):
     files = {}
     for rel in (ISM, BASE):
         files[rel] = hashlib.sha256(open(os.path.join(REPO, rel), 'rb').read()).hexdigest()
-    return {'family': 'E=(x^2-1)^2+k(y-c x^2+c)^2, k in %r, c in %r, images in %r, initial bend in %r, integrators %r; 4000+4000 steps' % (ks, cs, images, bends, integs),
+    return {'family': "E=h(x)+k(y-c x^2+c)^2 with h'=4(x^2-1)(x-s): k in %r, c in %r, s in %r, images in %r, initial bend in %r, integrators %r; 4000+4000 steps" % (ks, cs, ss, images, bends, integs),
             'evaluations': evals, 'distinct_nontrivial': nontriv,
             'rule': 'exhaustive product of the stated parameter lists; distinct by parameter tuple; non-trivial when the initial string does not already satisfy the postcondition',
             'samples': samples, 'failures': fails, 'files': files}
